@@ -235,6 +235,9 @@ pub struct PipeDef {
     /// The processing closure of this pipe owns the feeding end of that other pipe's input: when the closure is destroyed, the other
     /// pipe's input ends (a forwarding chain)
     pub chain_to:   Option<usize>,
+    /// The scripted input answers its first polls with "not ready yet": it wakes the task during the poll and returns Pending
+    /// (legal; the wake-up then runs inside the job that is polling the stream)
+    pub self_wakes: usize,
 }
 
 #[derive(Clone, Debug)]
